@@ -71,8 +71,11 @@ def _run_scope(facts_dir, scope, rounds, cache):
         if not o["ok"]: e["descr"] = o["descr"]
     summ = {f"{short(k[0])}.{k[1]}.{k[2]}": repr(v) for k, v in eng.summ.items() if k[2] != "<exists>"}
     out = dict(scope=scope, wall_s=round(time.time() - t0, 1), sites=list(sites.values()), summaries=summ, unknown=dict(eng.unknown_callees.most_common(40)))
-    tmp = cache + f".{os.getpid()}"
-    json.dump(out, open(tmp, "w")); os.replace(tmp, cache)
+    try:
+        tmp = cache + f".{os.getpid()}"
+        json.dump(out, open(tmp, "w")); os.replace(tmp, cache)
+    except OSError:
+        pass        # the cache directory is gone (pruned): the result is still valid, it is just not cached
     return out
 
 def load_vetted(path):
